@@ -88,11 +88,24 @@ FormsDisjoint(h) == LongForm(h) <=> EncHeader(h)[1] = 9
 \* the owner tag is typing information, not state
 Norm(l) == [f \in (DOMAIN l) \ {"z", "o"} |-> l[f]]
 
-\* hit-map cells travel as 16 bits and are read back unsigned
-Cells16 == {"HitMapPack1.Hit", "HitMapPack1.Error"}
-Cell16(v) == ZeroExt(Low(v, 2), 8)
-NormAt(l) == IF l.o \in Cells16 /\ l.k = "l"
-             THEN [k |-> "l", v |-> [i \in 1..Len(l.v) |-> Cell16(l.v[i])]]
+\* CELLS NARROWER ON THE WIRE than the field that holds them.  The wire carries
+\* the low bytes of the written value; the READER owes exactly the value of that
+\* cell in the cell's own number domain: an unsigned cell zero-extended, a signed
+\* one sign-extended.  The rule is ONE-SIDED: only the written (expected) value
+\* is reduced to what the wire carries -- what the reader returned is compared
+\* as it is (reducing both sides would hide a reader that extends the cell the
+\* wrong way: 32768 read back as -32768 has the same low 16 bits).
+\*   hit-map cells: unsigned 16 bits;  ServerInfoPack.Version: signed 24 bits
+WireCell(o) == CASE o \in {"HitMapPack1.Hit", "HitMapPack1.Error"} -> [bytes |-> 2, signed |-> FALSE]
+                 [] o = "ServerInfoPack.Version"                    -> [bytes |-> 3, signed |-> TRUE]
+                 [] OTHER                                           -> [bytes |-> 8, signed |-> TRUE]
+OnWire(v, c) == IF c.signed THEN SignExt(Low(v, c.bytes), 8) ELSE ZeroExt(Low(v, c.bytes), 8)
+Narrow(o) == WireCell(o).bytes < 8
+\* the reference for a WRITTEN leaf
+NormAt(l) == IF Narrow(l.o) /\ l.k = "l"
+             THEN [k |-> "l", v |-> [i \in 1..Len(l.v) |-> OnWire(l.v[i], WireCell(l.o))]]
+             ELSE IF Narrow(l.o) /\ l.k = "i"
+             THEN [k |-> "i", v |-> OnWire(l.v, WireCell(l.o))]
              ELSE Norm(l)
 
 \* fields the WRITER fills in when they are absent (a tag hash of 0 with a
@@ -121,7 +134,7 @@ Defaulted(m) == \E p \in DOMAIN m.w : ErrLevelDefaulted(m, p)
 \* leaf p of the original is found, equal after normalisation, in the leaves r
 RestoredIn(m, p, r) ==
   /\ p \in DOMAIN r
-  /\ LET a == NormAt(r[p]) b == NormAt(Expect(m, p)) IN a.k = b.k /\ a = b
+  /\ LET a == Norm(r[p]) b == NormAt(Expect(m, p)) IN a.k = b.k /\ a = b
 AllRestored(m, r) == \A p \in m.carried : RestoredIn(m, p, r)
 
 (***************************************************************************)
